@@ -13,14 +13,16 @@ EXTENDS CoSource
 \* occurrences of the same statement are distinguishable in the log while the
 \* grammar does not multiply programs by label values.  Label threads a counter:
 \* every node with an `id` gets the next number; a literal 0 becomes 100 + number.
+RECURSIVE LabV(_, _)
 LabV(ve, n) ==
   CASE ve.k = "obs" -> [v |-> [ve EXCEPT !.id = n], n |-> n + 1]
+    [] ve.k \in {"neg", "paren", "w1"} -> LET r == LabV(ve.e, n) IN [v |-> [ve EXCEPT !.e = r.v], n |-> r.n]
     [] ve.k = "lit" /\ ve.v = 0 -> [v |-> [ve EXCEPT !.v = 100 + n], n |-> n + 1]
     [] OTHER -> [v |-> ve, n |-> n]
 LabC(c, n) == IF IsNone(c) THEN [v |-> c, n |-> n] ELSE [v |-> [c EXCEPT !.id = n], n |-> n + 1]
 LabSimple(s, n) ==   \* simple statements, initialisers and post statements
   IF IsNone(s) THEN [v |-> s, n |-> n]
-  ELSE CASE s.k \in {"eff", "passign", "effkv", "effkk"} -> [v |-> [s EXCEPT !.id = n], n |-> n + 1]
+  ELSE CASE s.k \in {"eff", "passign", "effkv", "effkk", "retx"} -> [v |-> [s EXCEPT !.id = n], n |-> n + 1]
          [] s.k = "yield" -> LET r == LabV(s.v, n) IN [v |-> [s EXCEPT !.v = r.v], n |-> r.n]
          [] s.k = "yfrom" -> LET r == LabV(s.arg, n) IN [v |-> [s EXCEPT !.arg = r.v], n |-> r.n]
          [] OTHER -> [v |-> s, n |-> n]
@@ -60,10 +62,10 @@ Ctxs == {"top", "loop", "sw", "loopsw"}
 InLoop(ctx) == ctx \in {"loop", "loopsw"}
 SwCtx(ctx) == IF InLoop(ctx) THEN "loopsw" ELSE "sw"
 T0 == [k |-> "t", id |-> 0]
-Jumps(A, ctx) == {[k |-> j] : j \in A.jumps \cap ({"return"} \cup (IF ctx # "top" THEN {"break"} ELSE {})
+Jumps(A, ctx) == (IF "retx" \in A.jumps THEN {[k |-> "retx", id |-> 0]} ELSE {}) \cup {[k |-> j] : j \in A.jumps \cap ({"return"} \cup (IF ctx # "top" THEN {"break"} ELSE {})
                                                            \cup (IF InLoop(ctx) THEN {"continue"} ELSE {}))}
 \* an infinite loop must make progress: its first body statement spends budget, yields or leaves
-Productive(c, body) == ~IsNone(c) \/ (body # <<>> /\ Head(body).k \in {"eff", "yield", "yfrom", "if", "switch", "break", "return", "panic"})
+Productive(c, body) == ~IsNone(c) \/ (body # <<>> /\ Head(body).k \in {"eff", "yield", "yfrom", "if", "switch", "break", "return", "retx", "panic"})
 Case(g, body) == [g |-> g, body |-> body, ft |-> FALSE]
 Switch(init, form, cases) == [k |-> "switch", init |-> init, form |-> form, c |-> T0, cases |-> cases]
 
